@@ -106,10 +106,12 @@ claim('C06',
       "mpn_get_str returns exactly D digits, D being the unique count with (D-1)k < bitlength <= Dk (a ghost pinned by these two inequalities: no division by k in the specification), and digit j is the k-bit field [(D-1-j)k, (D-j)k) of the operand, for EVERY j (ghost digit "
       "index), incl. fields that straddle two limbs and the zero-padded top digit; mpn_set_str places EVERY digit in its k-bit field of the result, writes "
       "exactly the full limbs plus a non-zero partial top limb, no bit at or above len*k - the two contracts are inverse relations, so the round trip is exact. "
-      "mpz_sizeinbase is the exact digit count ceil(bitlength/k), 1 for zero.",
+      "mpz_sizeinbase is the exact digit count ceil(bitlength/k), 1 for zero. mpz_get_str for the bases 2,4,8,16,32,-2,-16 over that proved mpn_get_str contract: minus sign, every digit "
+      "character (lower / upper case alphabet), terminating NUL, a caller block of sizeinbase+2 bytes suffices, a block allocated for the caller is resized to exactly strlen+1 bytes, "
+      "nothing leaks (defect e76c625 - int loop counter - was found here).",
       TB + "NOT covered: every base that is not a power of two (mpn_sb_get_str / mpn_dc_get_str / mpn_bc_set_str / mpn_dc_set_str: multi-limb division and "
-      "multiplication by powers of the base - needs mathematical integers), the mpz/mpq/mpf string layers (sign, prefix, whitespace, digit characters, "
-      "allocation of sizeinbase+2 bytes), mpz_inp_str/out_str, mpz_sizeinbase for other bases. mpn_set_str: 'every digit is below the base' is a precondition, "
+      "multiplication by powers of the base - needs mathematical integers), mpz_get_str for other bases, every string PARSER (mpz_set_str: sign, prefix, whitespace, leading zeros), the mpq/mpf string layers, "
+      "mpz_inp_str/out_str, mpz_sizeinbase for other bases. mpn_set_str: 'every digit is below the base' is a precondition, "
       "instantiated at the digit each loop iteration reads; its `for (s = end; s >= str; s--)` header is evaluated as 'stop when s == str' (DESIGN 11.2).")
 claim('C18',
       "Integer layout (__gmp_doprnt_integer, the routine behind %Z/%Q/%N): for symbolic width, precision, flags-derived parameters, base, sign and a "
